@@ -30,7 +30,7 @@
    187  v = solve_triangular(L, y - A @ prior_mean, lower=True)
    188  -0.5 * (v @ v) - log(diagonal(L)).sum()                lin_lml_quad  (the algebraic part
                                                                -0.5 v.v; the log-det part is
-                                                               RealModel-free: see Proofs/LogDet.v)
+                                                               checked separately: Matrix/InversionEvidence.v)
    marginal_likelihood_gradient
    196  J = A K A^T + sigma ;  grad_J = [A dK A^T]             lin_J, lin_dJ
    200  f = A mu ; grad_f = [A dmu]                            lin_f
